@@ -81,8 +81,63 @@ func mentions(p *load.Program, q *types.Var, n ast.Node) bool {
 // checkQuantUse verifies the preconditions of tracing fd over q: q is never assigned inside fd, all reads of
 // a field-q use the same base expression, and q does not flow into a local variable by direct assignment.
 func checkQuantUse(p *load.Program, q *types.Var, fd *ast.FuncDecl) error {
+	return checkQuantUseDef(p, q, fd, false)
+}
+
+// checkQuantUseDef is checkQuantUse; with allowDef the function may also DEFINE the quantified variable: one assignment, a statement
+// of the function body itself (not nested in any branch), with no mention of the variable in the statements before it. Tracing with
+// q = id then describes exactly the executions in which that assignment stored id.
+func checkQuantUseDef(p *load.Program, q *types.Var, fd *ast.FuncDecl, allowDef bool) error {
 	var err error
 	base := ""
+	var def *ast.AssignStmt
+	if allowDef {
+		ndef := 0
+		ast.Inspect(fd.Body, func(n ast.Node) bool {
+			if a, ok := n.(*ast.AssignStmt); ok {
+				for _, l := range a.Lhs {
+					switch x := unparen(l).(type) {
+					case *ast.Ident:
+						if p.Info.Uses[x] == q {
+							ndef++
+						}
+					case *ast.SelectorExpr:
+						if p.Info.Uses[x.Sel] == q {
+							ndef++
+						}
+					}
+				}
+			}
+			return true
+		})
+		if ndef == 1 {
+			for i, s := range fd.Body.List {
+				a, ok := s.(*ast.AssignStmt)
+				if !ok || len(a.Lhs) != 1 || len(a.Rhs) != 1 || mentions(p, q, a.Rhs[0]) {
+					continue
+				}
+				isDef := false
+				switch x := unparen(a.Lhs[0]).(type) {
+				case *ast.Ident:
+					isDef = p.Info.Uses[x] == q
+				case *ast.SelectorExpr:
+					isDef = p.Info.Uses[x.Sel] == q
+				}
+				if !isDef {
+					continue
+				}
+				clean := true
+				for _, prev := range fd.Body.List[:i] {
+					if mentions(p, q, prev) {
+						clean = false
+					}
+				}
+				if clean {
+					def = a
+				}
+			}
+		}
+	}
 	bad := func(n ast.Node, format string, a ...interface{}) {
 		if err == nil {
 			err = &Unsupported{Pos: n.Pos(), What: fmt.Sprintf(format, a...) + " at " + p.Pos(n.Pos())}
@@ -110,7 +165,7 @@ func checkQuantUse(p *load.Program, q *types.Var, fd *ast.FuncDecl) error {
 			}
 		case *ast.AssignStmt:
 			for _, l := range x.Lhs {
-				if isQ(l) {
+				if isQ(l) && x != def {
 					bad(x, "quantified variable %s is assigned inside %s", q.Name(), fd.Name.Name)
 				}
 			}
